@@ -12,6 +12,24 @@ EVID = os.path.join(VERIF, 'evidence')
 REPLAYS = os.path.join(VERIF, 'replays')
 NCPU = os.cpu_count() or 4
 
+
+def link_repo():
+    """the harness crates name the repository as <verif>/.repo (a symlink), so that a copy of
+    /verif can be pointed at a copy of the repository (VERIF_REPO); default /repo"""
+    ln = os.path.join(VERIF, '.repo')
+    want = os.path.realpath(REPO)
+    try:
+        if os.path.islink(ln) and os.path.realpath(ln) == want:
+            return
+        if os.path.islink(ln) or os.path.exists(ln):
+            os.unlink(ln)
+        os.symlink(want, ln)
+    except OSError:
+        pass
+
+
+link_repo()
+
 ENV = dict(os.environ)
 ENV.update({'CARGO_NET_OFFLINE': 'true', 'CARGO_TERM_COLOR': 'never'})
 
